@@ -554,8 +554,9 @@ class MarkdownNormalizer(Renderer):
         children_content = self.render_children(element)
         self._in_heading = False
         self._current_inline_text = ""
-        # If heading ends with hard break, don't add extra newline
-        if children_content.endswith("\\"):
+        # If heading ends with hard break, don't add extra newline.
+        # Inside a tight list a blank line after the heading would make the list loose.
+        if children_content.endswith("\\") or self._current_list_tight:
             result = f"{self._prefix}{'#' * element.level} {children_content}\n"
             self._prefix = self._second_prefix
             # Don't skip next blank line or suppress item break for hard breaks
